@@ -97,21 +97,29 @@ def _parse_retry_after(value: str) -> float | None:
     except ValueError:
         try:
             parsed = parsedate_to_datetime(raw)
-        except (TypeError, ValueError, IndexError):
+            if parsed is None:
+                return None
+            if parsed.tzinfo is None:
+                parsed = parsed.replace(tzinfo=UTC)
+            delta = (parsed - datetime.now(UTC)).total_seconds()
+        except (TypeError, ValueError, IndexError, OverflowError):
             return None
-        if parsed is None:
-            return None
-        if parsed.tzinfo is None:
-            parsed = parsed.replace(tzinfo=UTC)
-        delta = (parsed - datetime.now(UTC)).total_seconds()
         return max(0.0, delta)
-    return max(0.0, float(seconds))
+    return _clamp_seconds(seconds)
+
+
+def _clamp_seconds(value: int | float) -> float | None:
+    """Non-negative seconds as a float; None when the value is beyond the float range."""
+    try:
+        return max(0.0, float(value))
+    except OverflowError:
+        return None if value > 0 else 0.0
 
 
 def _coerce_retry_after(exc: BaseException) -> float | None:
     direct = getattr(exc, "retry_after", None)
     if isinstance(direct, int | float):
-        return max(0.0, float(direct))
+        return _clamp_seconds(direct)
     if isinstance(direct, str):
         parsed = _parse_retry_after(direct)
         if parsed is not None:
